@@ -767,3 +767,62 @@ def control_keys_cover_rule(ctx, rid: str, floor: int = 3):
         ctx.ob(rid, f'{kc.qual}._control_keys_:covers-rewritten-children', not miss,
                '' if not miss else f'_control_keys_ never looks at {miss}, whose keys the key-rewriting methods of {kc.name} rewrite: control keys read inside that child are not '
                'reported, so the circuit places the operation before / next to the measurement it depends on', kc.mod.rel, qfn.lineno)
+
+
+# ---------------------------------------------------------------------------------------------------------------------
+# XPowGate and ZPowGate take a `dimension`: the same class is the qubit Pauli and the qudit shift / clock gate.  Code that
+# recognises one of them by isinstance() and then uses qubit facts (period 2, self-inverse, a named qubit gate, a bit flip)
+# must look at the dimension, or be unreachable for qudits for a stated reason.
+QUDIT_DISPATCH_EXEMPT = {
+    ('cirq.sim.clifford.stabilizer_simulation_state', '_strat_apply_gate'): 'dominated by has_stabilizer_effect(val), which is False for every gate with dimension != 2',
+    ('cirq.transformers.diagonal_optimization', '_is_z_or_cz_pow_gate'): 'only diagonality is used, which holds for the clock gate of every dimension',
+    ('cirq.transformers.eject_z', 'map_func'): 'the tracked phase is re-emitted as cirq.Z**h on the same qid, which raises on a qid of another dimension: never silently wrong',
+    ('cirq.ops.controlled_operation', '_qasm_'): 'QASM export of a qudit operation is refused by the qubit-only output (shape error) before the mnemonic is used',
+    ('cirq.ops.common_gates', '_commutes_on_qids_'): 'diagonal gates commute in every dimension',
+    ('cirq_google.api.v1.programs', 'gate_to_proto'): 'v1 programs address GridQubits only; a gate of dimension 3 cannot be applied to them',
+    ('cirq_google.serialization.circuit_serializer', '_serialize_gate_op'): 'the wire format addresses GridQubits only; a gate of dimension 3 cannot be applied to them',
+    ('cirq_google.devices.google_noise_properties', 'is_virtual'): 'device operations act on GridQubits only',
+    ('cirq_aqt.aqt_device', 'get_op_string'): 'AQT devices act on LineQubits only',
+    ('cirq_google.api.v1.programs', 'is_native_xmon_gate'): 'v1 programs address GridQubits only; a gate of dimension 3 cannot be applied to them',
+}
+
+
+def qudit_blind_dispatch_rule(ctx, rid: str, prefixes, floor: int = 2):
+    repo = ctx.repo
+    ctx.rule(rid, 'dimension-aware recognition: a function that recognises a gate by isinstance(g, C) where C (or a member of the tuple) is a class whose constructor takes `dimension` '
+             '(XPowGate, ZPowGate) reads the dimension / qid shape of what it recognised somewhere in its body, or the site is tabled with the reason qudits cannot reach it - '
+             'qubit facts (period 2, self-inverse, bit flip) do not hold for the qudit gate of the same class', floor=floor, style='RG')
+    dim_classes = set()
+    for ci in repo.classes.values():
+        init = ci.methods.get('__init__')
+        if init is not None and 'dimension' in {a.arg for a in init.args.args + init.args.kwonlyargs} and ci.qual.startswith('cirq.ops.') \
+                and any(b.name == 'EigenGate' for b in repo.mro(ci)):
+            dim_classes.add(ci.name)
+    if not {'XPowGate', 'ZPowGate'} <= dim_classes:
+        raise AnalysisError(f'{rid}: XPowGate/ZPowGate no longer take `dimension` ({sorted(dim_classes)})')
+    n = 0
+    for m in sorted(repo.modules.values(), key=lambda x: x.rel):
+        if not m.rel.startswith(tuple(prefixes)) or m.rel.endswith('_test.py') or '/testing/' in m.rel or '/contrib/' in m.rel:
+            continue
+        for fn in [f for f in ast.walk(m.tree) if isinstance(f, (ast.FunctionDef, ast.AsyncFunctionDef))]:
+            inner = {id(x) for f in ast.walk(fn) if f is not fn and isinstance(f, (ast.FunctionDef, ast.AsyncFunctionDef)) for x in ast.walk(f)}
+            hits = []
+            for c in ast.walk(fn):
+                if id(c) in inner or not (isinstance(c, ast.Call) and call_name(c) == 'isinstance' and len(c.args) == 2):
+                    continue
+                tnodes = c.args[1].elts if isinstance(c.args[1], ast.Tuple) else [c.args[1]]
+                names = {ast.unparse(t).split('.')[-1] for t in tnodes}
+                if names & dim_classes:
+                    hits.append((c, sorted(names & dim_classes)))
+            if not hits:
+                continue
+            toks = {x.attr for x in ast.walk(fn) if isinstance(x, ast.Attribute)} | {x.id for x in ast.walk(fn) if isinstance(x, ast.Name)}
+            aware = bool(toks & {'dimension', '_dimension', 'qid_shape', '_qid_shape_', 'control_qid_shape'})
+            ex = QUDIT_DISPATCH_EXEMPT.get((m.name, fn.name))
+            n += 1
+            ok = aware or ex is not None
+            c, which = hits[0]
+            ctx.ob(rid, f'{m.name}.{fn.name}:isinstance-{"/".join(which)}', ok, ('tabled: ' + ex) if (ex and not aware) else '' if ok else
+                   f'`{ast.unparse(c)[:70]}` also matches the qudit gate {which[0]}(dimension=d); the function never looks at the dimension, so what it concludes for the qubit Pauli '
+                   '(period 2, self-inverse, bit flip, a named qubit gate) is applied to a shift / clock gate', m.rel, c.lineno)
+    return n
